@@ -405,6 +405,7 @@ def run(tier, replay=None):
         if r.violated:
             raise common.MachineryError("repaired ordering violates %s" % r.violated)
     run_gap_patterns(chk, tier, mods)
+    sparsescan_routes(chk, tier)
     hook_recs = hook_traces(chk, tier)
     stress(chk, tier, cImageD11)
     chk.exhaustive = False
@@ -412,6 +413,18 @@ def run(tier, replay=None):
         selftest(mods)
     selftest_walk(chk, hook_recs)
     return chk.finish()
+
+
+def sparsescan_routes(chk, tier):
+    """SparseScan.lmlabel (sparse_localmaxlabel frame by frame over a scan file, optional sparse_smooth, countall
+    offsets): every behaviour of SparseScan.tla's lmlabel stages (statement-level transcription of the sparse kernel)
+    is replayed on the real class; failures of the lmlabel routes are C13 violations"""
+    from props import x03
+    runs = [("SparseScan qb (1x3 over {0,1,2}: all sequences of <= 3 frames with <= 3 pixels; lmlabel stages)", "SparseScan_qb.cfg", 600),
+            ("SparseScan qa (2x3 over {0,1,2}: every single frame, pairs with <= 2 pixels; smoothed lmlabel stage)", "SparseScan_qa.cfg", 600)]
+    if tier == "thorough":
+        runs.append(("SparseScan t2 (2x3 over {0,1,2}: sequences of <= 3 frames with <= 3 pixels; all stages)", "SparseScan_t2.cfg", 3000))
+    x03.bind_routes(chk, "SparseScan.lmlabel", runs, "c13ss")
 
 
 def selftest_walk(chk, recs):
@@ -457,6 +470,9 @@ def run_replay(chk, mods, path):
     elif case.get("hooks"):
         hook_traces(chk, chk.tier)
         chk.sample({"replayed": "hook traces"})
+    elif "sparsescan_case" in case:
+        sparsescan_routes(chk, chk.tier)
+        chk.sample({"replayed": "SparseScan routes"})
     elif "gap_pattern" in case:
         run_gap_patterns(chk, chk.tier, mods)
         chk.sample({"replayed": "gap patterns"})
